@@ -631,18 +631,18 @@ class Array(metaclass=MetaArray):
 
     def _update(self, value):
         if is_integer(value):
-            ll = value
-        else:
-            ll = len(value)
-        if len(self) == ll:
-            self.__class__._to_buffer(self._buffer, self._offset, value)
-        else:
-            if is_integer(value):
-                raise ValueError(f"Cannot specify new length {ll} for {self}")
-            else:
+            if len(self) != value:
                 raise ValueError(
-                    f"len({value})={ll} is incompatible with len({self})={len(self)}"
+                    f"Cannot specify new length {value} for {self}"
                 )
+        else:
+            shape = get_shape_from_array(value, len(self._shape))
+            if tuple(shape) != tuple(self._shape):
+                raise ValueError(
+                    f"shape {tuple(shape)} of {value} is incompatible "
+                    f"with shape {tuple(self._shape)} of {self}"
+                )
+        self.__class__._to_buffer(self._buffer, self._offset, value)
 
     def _get_offset(self, index):
         if isinstance(index, (int, np.integer)):
